@@ -518,6 +518,12 @@ def parse_param(p):
             attr = ["buffer", int(n)]
         elif a in BUILTIN_ATTRS:
             attr = ["builtin", a]
+        elif a == "user":
+            # FakeMissingBindings: [[user(fake0)]]; the caller numbers these parameters in order (slot 1000 + k)
+            p.eat("(")
+            p.ident()
+            p.eat(")")
+            attr = ["fake"]
         else:
             raise OutOfFragment("parameter attribute %s" % a)
         p.eat("]]")
@@ -547,6 +553,11 @@ def parse_function(it, typenames):
     body = p.block()
     if not p.done():
         raise OutOfFragment("tokens after function body")
+    k = 0
+    for q in params:
+        if q["attr"] == ["fake"]:
+            q["attr"] = ["buffer", 1000 + k]
+            k += 1
     return {"name": name, "ret": ret, "params": params, "body": body, "kernel": bool(kernel)}
 
 
